@@ -3347,17 +3347,24 @@ class RegexMatch(Match):
         if nfdfa_state in self.dfa_2.finishing_states:
             into.mark_accepting(new_state)
 
+        # Several inverted classes only leave the same state when they are disjoint (their excluded sets cover every byte between them):
+        # one of them becomes the else transition, the others are spelled out as normal sets.
+        inverted_sources = [x for x in transitions if isinstance(x, InvertedRegexCharClass)]
+        else_source = min(inverted_sources, key=lambda x: (len(x.chars), sorted(x.chars))) if inverted_sources else None
+
         for source, target in transitions.items():
+            dbg_meta = nfdfa_state.transition_dbg_metas[source]
+            if isinstance(source, InvertedRegexCharClass) and source is not else_source:
+                source = RegexCharClass(frozenset(chr(x) for x in range(256)) - source.chars)
             if isinstance(source, InvertedRegexCharClass):
-                # TODO: handle multiple of these
                 # Convert to a normal set
                 new_transitions[source.chars | frozenset((DFTransition.End,))] = (else_path, False)
                 new_transitions[frozenset((DFTransition.Else,))] = (self._create_dfa_state(target, into, False, else_path), target in self.dfa_2.finishing_states)
-                new_transition_upstreams[DFTransition.Else] = nfdfa_state.transition_dbg_metas[source]
+                new_transition_upstreams[DFTransition.Else] = dbg_meta
             else:
                 new_transitions[source.chars] = (self._create_dfa_state(target, into, False, else_path), target in self.dfa_2.finishing_states)
                 for i in source.chars:
-                    new_transition_upstreams[i] = nfdfa_state.transition_dbg_metas[source]
+                    new_transition_upstreams[i] = dbg_meta
 
         # Simplify
         new_transitions_inverse = defaultdict(list) 
